@@ -413,7 +413,7 @@ func (r *runner) succ(used int) (def *Ev, alts []altT, v *viol) {
 			return nil, nil, &viol{Oracle: "stuck", What: fmt.Sprintf("all %d headers of the source are stored but the module still needs headers (sync point %d)", tip, m.GetStateSyncPoint())}
 		}
 		def = &Ev{K: "hdr", N: int(tip - hh)}
-		for k := 1; k < int(tip-hh); k++ {
+		for k := 1; k < int(tip-hh) && !pr.Lean; k++ {
 			// Every split of the headers below the sync point is free on a trace
 			// without other deviations (all compositions, with dedupe on the
 			// header height); a batch that crosses P but stops short of the tip
@@ -424,7 +424,7 @@ func (r *runner) succ(used int) (def *Ev, alts []altT, v *viol) {
 			}
 			alts = append(alts, altT{Ev{K: "hdr", N: k}, cost})
 		}
-		if hh >= 1 {
+		if hh >= 1 && !pr.Lean {
 			alts = append(alts, altT{Ev{K: "hdr", N: int(tip - hh), H: "ov"}, 1})
 		}
 	case m.NeedStorageData() && c.Mode == "mpt":
@@ -441,6 +441,10 @@ func (r *runner) succ(used int) (def *Ev, alts []altT, v *viol) {
 			if _, ok := c.trie.Nodes[h]; !ok {
 				return nil, nil, &viol{Oracle: "unknown-node-not-in-source-trie", What: "the module requests node " + h.StringBE() + " which is not part of the state trie at the sync point"}
 			}
+		}
+		if pr.Lean {
+			def = &Ev{K: "all", H: "asc"}
+			break
 		}
 		d := c.pick(u)
 		def = &Ev{K: "node", H: hx(d)}
@@ -469,6 +473,14 @@ func (r *runner) succ(used int) (def *Ev, alts []altT, v *viol) {
 				alts = append(alts, altT{Ev{K: "all", H: "asc"}, oc}, altT{Ev{K: "all", H: "desc"}, oc})
 			}
 			alts = append(alts, altT{Ev{K: "mix", H: hx(d)}, oc})
+			// ext_inline: the requested inner node with one child serialised in full
+			if inlineOn {
+				for _, h := range u {
+					if len(c.trie.Kids[h]) > 0 && c.inlineBytes(h) != nil {
+						alts = append(alts, altT{Ev{K: "inl", H: hx(h)}, oc})
+					}
+				}
+			}
 		}
 	case m.NeedStorageData() && c.Mode == "items" && !r.itemsOK:
 		// the state source announces the root of the sync point before any item
@@ -492,7 +504,7 @@ func (r *runner) succ(used int) (def *Ev, alts []altT, v *viol) {
 			dk = rem
 		}
 		def = &Ev{K: "items", N: dk}
-		for k := 1; k <= rem; k++ {
+		for k := 1; k <= rem && !pr.Lean; k++ {
 			if k == dk {
 				continue
 			}
@@ -501,6 +513,9 @@ func (r *runner) succ(used int) (def *Ev, alts []altT, v *viol) {
 				cost = 0
 			}
 			alts = append(alts, altT{Ev{K: "items", N: k}, cost})
+		}
+		if pr.Lean {
+			break
 		}
 		alts = append(alts, altT{Ev{K: "items", N: 1, H: "bad"}, oc})
 		if rem >= 2 {
@@ -515,6 +530,9 @@ func (r *runner) succ(used int) (def *Ev, alts []altT, v *viol) {
 		return nil, nil, nil
 	}
 	def.D = true
+	if pr.Lean && !r.leanWindow() {
+		return def, alts, nil
+	}
 	alts = append(alts, altT{Ev{K: "flush"}, 1}, altT{Ev{K: "restart"}, 1})
 	if pr.RestartTip && c.HInit != tip {
 		alts = append(alts, altT{Ev{K: "restart", H: "tip"}, 1})
@@ -559,6 +577,9 @@ func rewireBlock(b *block.Block) *block.Block {
 // even when the state itself was expanded before.
 func (r *runner) crashAlts() []altT {
 	var alts []altT
+	if r.c.prof.Lean && !r.leanWindow() {
+		return nil
+	}
 	for i := 1; i <= r.postLog-r.prevLog; i++ {
 		alts = append(alts, altT{Ev{K: "crash", N: i}, 1})
 	}
@@ -602,10 +623,14 @@ func (r *runner) do(e Ev) (v *viol) {
 		} else if pan == nil && r.n.BC.HeaderHeight() != to {
 			v = fail("valid-headers-not-stored", "AddHeaders(%d..%d) returned nil but the header height is %d", from, to, r.n.BC.HeaderHeight())
 		}
-	case "node", "sub", "all", "mix":
+	case "node", "sub", "all", "mix", "inl":
 		var batch [][]byte
 		var must []util.Uint256
 		switch e.K {
+		case "inl": // ext_inline: the requested inner node with one child serialised in full
+			r.stats.inlines.Inc()
+			batch = [][]byte{c.inlineBytes(unhx(e.H))}
+			must = []util.Uint256{unhx(e.H)}
 		case "node":
 			batch = [][]byte{c.trie.Nodes[unhx(e.H)]}
 			must = []util.Uint256{unhx(e.H)}
@@ -640,7 +665,17 @@ func (r *runner) do(e Ev) (v *viol) {
 			}
 		}
 		err, pan = guard(func() error { return r.m.AddMPTNodes(batch) })
-		if pan == nil && err != nil && e.K != "mix" {
+		if pan == nil && err != nil && e.K == "inl" {
+			// a module that refuses the non-canonical form must leave the node requested
+			r.stats.outcome("inl->refused")
+			still := false
+			for _, h := range r.unknown() {
+				still = still || h == must[0]
+			}
+			if !still {
+				v = fail("inline-child-lost", "AddMPTNodes(%s) returned %v but %s is no longer requested", e, err, must[0].StringBE())
+			}
+		} else if pan == nil && err != nil && e.K != "mix" {
 			v = fail("valid-node-rejected", "AddMPTNodes(%s, %d nodes): %v", e, len(batch), err)
 		} else if pan == nil {
 			left := map[util.Uint256]bool{}
@@ -651,6 +686,17 @@ func (r *runner) do(e Ev) (v *viol) {
 				if left[h] {
 					v = fail("node-still-unknown", "AddMPTNodes(%s) returned %v but %s is still requested", e, err, h.StringBE())
 				}
+			}
+			if e.K == "inl" && v == nil && err == nil {
+				// not refused: say what became of the written-out child, else report the missing error
+				var iv *viol
+				if _, p2 := guard(func() error { iv = r.inlineLost(unhx(e.H)); return nil }); p2 != nil {
+					pan = p2
+				}
+				if v = iv; v == nil && pan == nil {
+					v = fail("bad-data-no-error:inl", "AddMPTNodes(%s): a node with a child serialised in place of its hash was accepted without an error", e)
+				}
+				r.stats.outcome("inl->accepted")
 			}
 		}
 	case "nodedup":
@@ -704,6 +750,15 @@ func (r *runner) do(e Ev) (v *viol) {
 				v = fail("lockstep-observe", "the synced node cannot answer at height %d: %v", next, err)
 			} else if d := src.obs[next-1].Diff(got); len(d) != 0 {
 				v = &viol{Oracle: "lockstep-diverged", What: fmt.Sprintf("after block %d the synced node differs from the source", next), Diff: d}
+			} else if c.prof.Lean {
+				// ext_epoch: the native getters an RPC client reads (native caches)
+				nr, e := nativeReads(r.n, src.hashes)
+				if e != nil {
+					v = fail("lockstep-observe", "the synced node cannot answer native getters at height %d: %v", next, e)
+				} else if want := src.lite[next]["native_reads"]; nr != want {
+					v = &viol{Oracle: "lockstep-natives-diverged", What: fmt.Sprintf("after block %d the native getters of the synced node differ from the source's", next), Diff: diffLite(map[string]string{"native_reads": want}, map[string]string{"native_reads": nr}, nil, nil)}
+				}
+				r.stats.nativeReads.Inc()
 			}
 		}
 	case "flush":
@@ -1074,6 +1129,14 @@ func (r *runner) probes() []probeT {
 			add("p-node-truncated", 0, false, func() error { return m.AddMPTNodes([][]byte{b[:len(b)-1]}) })
 		}
 		add("p-node-garbage", 0, true, func() error { return m.AddMPTNodes([][]byte{{0xff, 0x01}}) })
+		// ext_inline: every requested inner node with one child serialised in place of its hash (same node hash)
+		if inlineOn {
+			for i, h := range u {
+				if ib := c.inlineBytes(h); ib != nil {
+					add("p-node-inline", i, true, func() error { return m.AddMPTNodes([][]byte{ib}) })
+				}
+			}
+		}
 	case active && m.NeedStorageData() && c.Mode == "items":
 		add("p-hdr-late", 0, true, func() error { return m.AddHeaders(src.headers(tip, tip)...) })
 		add("p-blk-early", 0, false, func() error { return m.AddBlock(src.block(c.P)) })
